@@ -49,6 +49,21 @@ class World:
         self.bad_reply = None
         self.report_ctx = report_ctx
         self.agent = RA.Agent(db=[(tuple(OID), ["str", "6f6b"])], v3=self.v3, hook=self.hook)
+        # a slow discovery exchange: the probe takes `slow` ticks to reach the engine (the clock both
+        # sides share advances while the client waits), the Report is back at once
+        self.slow = 0
+        respond = self.agent.respond
+
+        def slow_respond(data):
+            if self.slow:
+                try:
+                    if B.parse_message(bytes(data)).get("engine_id") == b"":
+                        self.now += self.slow
+                except Exception:  # noqa: BLE001
+                    pass
+            return respond(data)
+
+        self.agent.respond = slow_respond
         self.client = W.make_client(self.agent, "v3", level)
         if ctx_engine:
             from puresnmp.api.raw import Context
@@ -101,6 +116,7 @@ def run_history(level, ctx_engine, start, boots, events, report_ctx="same"):
                 stale = True
                 continue
             w.bad_reply = ev[1] if ev[0] == "request-bad-reply" else None
+            w.slow = ev[1] if ev[0] == "request-slow" else 0
             n = len(w.agent.log)
             try:
                 # every kind of confirmed-class request has to keep working, not only GET: the
@@ -171,6 +187,8 @@ def gen_history(rng, quick):
             evs.append(["advance", rng.choice(DTS + [rng.randint(0, 400)])])
         elif r < 0.93:
             evs.append(["reboot"])
+        elif r < 0.96:
+            evs.append(["request-slow", rng.choice([3, 15, 600, 1400, 2000, 100000])])
         else:
             evs.append(["request-bad-reply", rng.choice(["badid", "novb", "badid-pdu-echo"])])
     if not any(e[0].startswith("request") for e in evs):
@@ -189,6 +207,11 @@ def small_histories():
     out.append([["request-bad-reply", "badid"], ["request"]])
     out.append([["request-bad-reply", "novb"], ["advance", 50], ["request"], ["advance", 2000], ["request"]])
     out.append([["request-bad-reply", "badid-pdu-echo"], ["request"]])
+    # time passing DURING the discovery exchange (1.5 s, 200 s: beyond the window), later requests
+    # on the data cached then; a slow re-discovery after a reboot
+    out.append([["request-slow", 15], ["request"], ["advance", 7], ["request"]])
+    out.append([["request-slow", 2000], ["request"], ["advance", 1000], ["request"]])
+    out.append([["request"], ["reboot"], ["request-slow", 1600], ["request"]])
     # a long poll at non-integral spacing: 0.8 s x 200 requests, 2.5 s x 70 requests
     out.append([x for _ in range(200) for x in (["request"], ["advance", 8])])
     out.append([x for _ in range(70) for x in (["request"], ["advance", 25])])
@@ -224,7 +247,7 @@ def run(ctx):
     if ctx.driver_ok:
         for (case, trace), ans in zip(cases, run_driver(reqs)):
             evs = case["events"]
-            res.case("e2e-time", case, nontrivial=sum(1 for e in evs if e[0] == "request") >= 2 and any(e[0] == "advance" and e[1] > 0 for e in evs))
+            res.case("e2e-time", case, nontrivial=sum(1 for e in evs if e[0] in ("request", "request-slow")) >= 2 and any(e[0] == "advance" and e[1] > 0 for e in evs))
             model = ans.get("ok", {}).get("trace") if "ok" in ans else ans
             if isinstance(model, list):
                 # the context engine id is invisible in encrypted requests the agent refused
